@@ -53,9 +53,9 @@ static CO_TMR_MEM TMem[4];
 static uint32_t   ID[4];                 /* identity object 1018h:1..4 of this configuration (constant) */
 static uint8_t   *Snap;                  /* buffer for the side probe */
 static struct WObs ObsKeep;
-static int        o_liveness, o_reactivate, o_drvbaud, o_nopoll;
+static int        o_liveness, o_reactivate, o_drvbaud, o_nopoll, o_nostart;
 
-enum { N_PREOP, N_OP, N_STOP, N_ANY };
+enum { N_PREOP, N_OP, N_STOP, N_ANY, N_INIT };        /* N_INIT: --opt nostart=1, the node is initialised but CONodeStart has not been called yet */
 
 /* ------------------------------------------------------------------ reference LSS slave */
 static struct {
@@ -110,6 +110,7 @@ static void build_alphabet(void)
     add(K_SHORT, 0, 0);                                           /* inquire node id with DLC 1 */
     for (unsigned i = 0; i < 5; i++) add(K_NMT, NMTCS[i], 0);
     add(K_TICK, 0, 0);
+    if (mc_opt("nostart", 0)) { add(K_NMT, 130, 1); add(K_NMT, 0, 2); }     /* the application resets the communication through the API (also before the node is started); CONodeStart */
     add(K_PROBE, 1, 0); add(K_PROBE, 127, 0);                     /* SDO upload of 1000h:00 on 600h + id */
 }
 
@@ -134,7 +135,8 @@ static const char *ev_name(int e)
     case K_NONCFG:  snprintf(b, sizeof b, "identify-non-configured [cs 76]"); break;
     case K_UNKNOWN: snprintf(b, sizeof b, "unknown-cs(%d)", v->a); break;
     case K_SHORT:   snprintf(b, sizeof b, "inquire-node-id-DLC1"); break;
-    case K_NMT:     snprintf(b, sizeof b, "nmt(%s)", v->a == 130 ? "reset-communication" : v->a == 129 ? "reset-node" : v->a == 1 ? "start" : v->a == 2 ? "stop" : "enter-pre-operational"); break;
+    case K_NMT:     if (v->b) { snprintf(b, sizeof b, "%s", v->b == 1 ? "application: CONmtReset(CO_RESET_COM)" : "application: CONodeStart"); break; }
+                    snprintf(b, sizeof b, "nmt(%s)", v->a == 130 ? "reset-communication" : v->a == 129 ? "reset-node" : v->a == 1 ? "start" : v->a == 2 ? "stop" : "enter-pre-operational"); break;
     case K_TICK:    snprintf(b, sizeof b, "tick"); break;
     default:        snprintf(b, sizeof b, "sdo-probe(id=%d)", v->a); break;
     }
@@ -162,9 +164,10 @@ static int build(int cfg)
     spec.NodeId = (cfg & 1) ? 255 : 1; spec.Baudrate = 250000; spec.Dict = OD; spec.DictLen = 24; spec.EmcyCode = 0;
     spec.TmrMem = TMem; spec.TmrNum = 4; spec.TmrFreq = 1000; spec.Drv = &W_IfDrv; spec.SdoBuf = SdoBuf;
     CONodeInit(&Node, &spec);
-    CONodeStart(&Node);
+    o_nostart = mc_opt("nostart", 0);
+    if (!o_nostart) CONodeStart(&Node);
     (void)CONodeGetErr(&Node);
-    M.mode = 0; M.sel = 1; M.idn = 1; M.act_node = spec.NodeId; M.act_baud = spec.Baudrate; M.nmt = N_PREOP;
+    M.mode = 0; M.sel = 1; M.idn = 1; M.act_node = spec.NodeId; M.act_baud = spec.Baudrate; M.nmt = o_nostart ? N_INIT : N_PREOP;
     W_REG(Node); W_REG(OD); W_REG(ErrReg); W_REG(SdoBuf); W_REG(TMem); W_REG(M);
     for (int i = 0; i < CO_SSDO_N; i++) w_nohash_range(&Node.Sdo[i].Frm, sizeof Node.Sdo[i].Frm);
     Snap = realloc(Snap, w_snap_size());
@@ -367,6 +370,7 @@ static int step(int e)
         break; }
 
     case K_ACT:
+        if (M.nmt == N_INIT) return MC_SKIP;                      /* bit-timing activation of a node that is not started: not explored */
         if (M.activating && !o_reactivate) return MC_SKIP;
         if (M.mode == 0) {
             lss_send8(21, (uint8_t)v->a, 0, 0, 0, 0, 0);
@@ -452,6 +456,17 @@ static int step(int e)
         uint8_t d[2] = { (uint8_t)v->a, 0 };
         char o[300];
         if (M.activating) return MC_SKIP;
+        if (v->b == 2) {                                           /* CONodeStart: boot-up on the active node id, PRE-OPERATIONAL */
+            if (M.nmt != N_INIT) return MC_SKIP;
+            CONodeStart(&Node);
+            w_fmt_obs(o, sizeof o); mc_log("    CONodeStart -> %s\n", o);
+            if (!(OBS.ntx == 1 && OBS.tx[0].id == 0x700u + M.act_node && OBS.tx[0].dlc == 1 && OBS.tx[0].d[0] == 0) && !(OBS.ntx == 0 && M.act_node == 255))
+                mc_fail("lss-nodeid-after-reset", "CONodeStart: %s; the active node id is %u", o, M.act_node);
+            M.nmt = N_PREOP;
+            break;
+        }
+        if (M.nmt == N_INIT && !v->b) return MC_SKIP;            /* no NMT service before the node is started */
+        if (v->b == 1) CONmtReset(&Node.Nmt, CO_RESET_COM); else
         w_rx(&Node, 0x000, 2, d);
         w_fmt_obs(o, sizeof o); mc_log("    NMT cs %d -> %s\n", v->a, o);
         if (v->a == 1) M.nmt = N_OP; else if (v->a == 2) M.nmt = N_STOP; else if (v->a == 128) M.nmt = N_PREOP;
@@ -465,6 +480,10 @@ static int step(int e)
             if (M.pers_baud) a_baud[nb++] = M.pers_baud; else { a_baud[nb++] = M.act_baud; if (M.alt_baud) a_baud[nb++] = M.alt_baud; }
             if (M.pend_baud) a_baud[nb++] = M.pend_baud;
             if (OBS.ntx > 1) { mc_fail("lss-nodeid-after-reset", "%d frames after the reset, expected the boot-up message only", OBS.ntx); break; }
+            if (M.nmt == N_INIT) {                                 /* not started: no boot-up message, the node id shows in the node itself */
+                if (OBS.ntx) { mc_fail("lss-nodeid-after-reset", "a reset before CONodeStart transmits: %s", o); break; }
+                for (int i = 0; i < nn; i++) if (Node.NodeId == a_node[i]) { ok = 1; got = a_node[i]; }
+            } else
             if (OBS.ntx == 1) {
                 const WFrame *f = &OBS.tx[0];
                 for (int i = 0; i < nn; i++) if (f->id == 0x700u + a_node[i] && f->dlc == 1 && f->d[0] == 0) { ok = 1; got = a_node[i]; }
@@ -475,7 +494,7 @@ static int step(int e)
             if (!ok) { mc_fail("lss-baud-after-reset", "Node.Baudrate is %u after the reset; stored bit rate %u, pending %u, active before %u", Node.Baudrate, M.pers_baud, M.pend_baud, M.act_baud); break; }
             if (o_drvbaud && DRV.baud != Node.Baudrate) { mc_fail("lss-baud-after-reset", "the CAN driver still runs at %u although Node.Baudrate is %u after the reset", DRV.baud, Node.Baudrate); break; }
             M.act_node = got; M.act_baud = Node.Baudrate; M.alt_baud = 0;
-            M.nmt = N_PREOP; M.sel = 1; M.idn = 1;                 /* a reset restarts the LSS slave like a fresh start (C20): sequences in progress are dropped */
+            M.nmt = (uint8_t)(M.nmt == N_INIT ? N_INIT : N_PREOP); M.sel = 1; M.idn = 1;                 /* a reset restarts the LSS slave like a fresh start (C20): sequences in progress are dropped */
             side_probe_after_reset(old_pn, old_pb);
         }
         break; }
@@ -500,7 +519,7 @@ static int step(int e)
         w_rx8(&Node, 0x600u + id, 0x40, 0x00, 0x10, 0x00, 0, 0, 0, 0);
         w_fmt_obs(o, sizeof o); mc_log("    SDO upload 1000h:00 on %03Xh -> %s\n", 0x600u + id, o);
         for (int i = 0; i < OBS.ntx && i < W_MAX_TX; i++) { if (OBS.tx[i].id == 0x580u + id) { f = &OBS.tx[i]; n++; } else { mc_fail("lss-nodeid-after-reset", "SDO request on %03Xh answered on %03Xh", 0x600u + id, OBS.tx[i].id); break; } }
-        if (M.act_node != id || M.nmt == N_STOP) {
+        if (M.act_node != id || M.nmt == N_STOP || M.nmt == N_INIT) {
             if (n) mc_fail("lss-nodeid-after-reset", "SDO request on %03Xh was answered although the active node id is %u (NMT state %d)", 0x600u + id, M.act_node, M.nmt);
         } else if (M.nmt != N_ANY) {
             if (n != 1 || (f->d[0] & 0xE3) != 0x43 || f->d[1] != 0x00 || f->d[2] != 0x10 || f->d[3] != 0)
